@@ -5,6 +5,7 @@
 //   MODEL k            build model k, save it to the base buffer     -> "M k <ok> <mj_sizeModel> <nbuffer>"
 //   GEN id seed feat nbody   same with a random model of mjgen.h (mjg_spec)
 //   RAW id dump fwd hex      like LOAD, on the given bytes
+//   ENUMS              values of the enumerators used by the typed cross-reference oracle -> "E name value"
 //   DUMP               sizes, struct blocks, every array (in memory) -> "Z ...", "T f hex", "A i name bytes memoff hex", "F hex"
 //   OFFS               actual file offset of every array, by perturbing the array in a copy of the
 //                      model, saving, and diffing with the base file -> "O i first count" (count 0: empty)
@@ -127,13 +128,17 @@ static mjSpec* spec_rich(int longnames) {
   mjsSite* ms = mjs_addSite(mc, NULL); mjs_setName(ms->element, "msite");
   // free body
   mjsBody* fb = mjs_addBody(w, NULL); mjs_setName(fb->element, NM("free")); fb->pos[2] = 1;
-  double ud2[2] = {1.5, -2.5}; setd(fb->userdata, ud2, 2);
+  double ud2[2] = {1.5, -2.5}; setd(fb->userdata, ud2, 2); fb->gravcomp = 0.5;
   mjsJoint* fj = mjs_addFreeJoint(fb); mjs_setName(fj->element, NM("fj"));
   mjsGeom* fg = mjs_addGeom(fb, NULL); fg->type = mjGEOM_BOX; fg->size[0] = 0.1; fg->size[1] = 0.2; fg->size[2] = 0.3;
-  mjs_setName(fg->element, "fbox"); double ud3[3] = {1, 2, 3}; setd(fg->userdata, ud3, 3); mjs_setString(fg->material, "mat2");
+  mjs_setName(fg->element, "fbox"); fg->surfacevel[0] = 0.1; double ud3[3] = {1, 2, 3}; setd(fg->userdata, ud3, 3); mjs_setString(fg->material, "mat2");
   mjsSite* fs = mjs_addSite(fb, NULL); mjs_setName(fs->element, "fsite"); fs->pos[0] = 0.1;
   mjsCamera* cam = mjs_addCamera(fb, NULL); mjs_setName(cam->element, NM("cam1")); cam->pos[1] = -1;
   cam->mode = mjCAMLIGHT_TARGETBODY; mjs_setString(cam->targetbody, "mocap1");
+  // a sphere resting in the floor with an adhesive contact (active at qpos0)
+  mjsBody* ab = mjs_addBody(w, NULL); mjs_setName(ab->element, "adh"); ab->pos[0] = -2; ab->pos[2] = 0.05;
+  mjs_addFreeJoint(ab);
+  mjsGeom* ag = mjs_addGeom(ab, NULL); ag->type = mjGEOM_SPHERE; ag->size[0] = 0.06; ag->adhesion = 2.0; mjs_setName(ag->element, "gadh");
   // chain: hinge, slide, ball
   mjsBody* c1 = mjs_addBody(w, NULL); mjs_setName(c1->element, "c1"); c1->pos[0] = 1; c1->pos[2] = 1;
   mjsJoint* h1 = mjs_addJoint(c1, NULL); h1->type = mjJNT_HINGE; h1->axis[0] = 0; h1->axis[1] = 1; h1->axis[2] = 0;
@@ -149,7 +154,7 @@ static mjSpec* spec_rich(int longnames) {
   mjsGeom* g2 = mjs_addGeom(c2, NULL); g2->type = mjGEOM_SPHERE; g2->size[0] = 0.06; mjs_setName(g2->element, "g2");
   mjsSite* s2 = mjs_addSite(c2, NULL); mjs_setName(s2->element, "s2"); s2->pos[0] = 0.2; s2->pos[2] = 0.1;
   mjsBody* c3 = mjs_addBody(c2, NULL); mjs_setName(c3->element, "c3"); c3->pos[0] = 0.3;
-  mjsJoint* bj = mjs_addJoint(c3, NULL); bj->type = mjJNT_BALL; mjs_setName(bj->element, NM("bj"));
+  mjsJoint* bj = mjs_addJoint(c3, NULL); bj->type = mjJNT_BALL; mjs_setName(bj->element, "bj");
   mjsGeom* g3 = mjs_addGeom(c3, NULL); g3->type = mjGEOM_ELLIPSOID; g3->size[0] = 0.05; g3->size[1] = 0.06; g3->size[2] = 0.07;
   mjs_setName(g3->element, "g3");
   mjsSite* s3 = mjs_addSite(c3, NULL); mjs_setName(s3->element, "s3"); s3->pos[2] = 0.1;
@@ -168,6 +173,14 @@ static mjSpec* spec_rich(int longnames) {
   a2->dyntype = mjDYN_FILTER; a2->dynprm[0] = 0.1; a2->gainprm[0] = 2;
   mjsActuator* a3 = mjs_addActuator(s, NULL); mjs_setName(a3->element, NM("a3")); a3->trntype = mjTRN_SITE; mjs_setString(a3->target, "fsite");
   a3->gear[0] = 1; a3->gainprm[0] = 1;
+  mjsActuator* a4 = mjs_addActuator(s, NULL); mjs_setName(a4->element, NM("a4")); a4->trntype = mjTRN_SLIDERCRANK;
+  mjs_setString(a4->target, "s2"); mjs_setString(a4->slidersite, "s1"); a4->cranklength = 0.3; a4->gainprm[0] = 1;
+  mjsActuator* a5 = mjs_addActuator(s, NULL); mjs_setName(a5->element, NM("a5")); a5->trntype = mjTRN_BODY;
+  mjs_setString(a5->target, "c3"); mjs_setToAdhesion(a5, 1.5); a5->ctrllimited = mjLIMITED_TRUE; a5->ctrlrange[0] = 0; a5->ctrlrange[1] = 1;
+  mjsActuator* a6 = mjs_addActuator(s, NULL); mjs_setName(a6->element, NM("a6")); a6->trntype = mjTRN_SITE;
+  mjs_setString(a6->target, "s3"); mjs_setString(a6->refsite, "s1"); a6->gear[0] = 1; a6->gainprm[0] = 1;
+  mjsActuator* a7 = mjs_addActuator(s, NULL); mjs_setName(a7->element, NM("a7")); a7->trntype = mjTRN_JOINTINPARENT;
+  mjs_setString(a7->target, "bj"); a7->gear[0] = 1; a7->gainprm[0] = 1;
   // sensors
   mjsSensor* se1 = mjs_addSensor(s); mjs_setName(se1->element, NM("se1")); se1->type = mjSENS_JOINTPOS; se1->objtype = mjOBJ_JOINT;
   mjs_setString(se1->objname, "h1"); double su[1] = {3}; setd(se1->userdata, su, 1);
@@ -230,6 +243,7 @@ static void dump_model(const mjModel* m, int with_structs) {
     printf("T stat "); hex((const unsigned char*)&m->stat, sizeof(mjStatistic)); printf("\n");
     printf("T flg_gravcomp "); hex((const unsigned char*)&m->flg_gravcomp, sizeof(mjtBool)); printf("\n");
     printf("T flg_surfacevel "); hex((const unsigned char*)&m->flg_surfacevel, sizeof(mjtBool)); printf("\n");
+    printf("T flg_adhesion "); hex((const unsigned char*)&m->flg_adhesion, sizeof(mjtBool)); printf("\n");
   }
   int i = 0;
   MJMODEL_POINTERS_PREAMBLE(m)
@@ -305,6 +319,53 @@ static void cmd_offs(void) {
   free(buf2);
 }
 
+// every member of mjModel that is not a pointer into the buffer (sizes, options, flags, ...): compare the two structs
+// byte by byte after blanking the pointers, the buffer address and the compilation signature (which is not part of a
+// file: a loaded model has no mjSpec); names of the differing members are written to out
+#include <stddef.h>
+static int scalar_diff(const mjModel* a, const mjModel* b, char* out, size_t nout) {
+  mjModel ca = *a, cb = *b;
+#define X(type, name, nr, nc) ca.name = NULL; cb.name = NULL;
+  MJMODEL_POINTERS
+#undef X
+  ca.buffer = cb.buffer = NULL; ca.signature = cb.signature = 0;
+  struct { const char* fn; size_t off, sz; } fld[512]; int nf = 0;
+#define X(mem) fld[nf].fn = #mem; fld[nf].off = offsetof(mjModel, mem); fld[nf].sz = sizeof(ca.mem); nf++;
+  MJMODEL_SIZES
+  X(opt) X(vis) X(stat) X(flg_gravcomp) X(flg_surfacevel) X(flg_adhesion)
+#undef X
+  const unsigned char* pa = (const unsigned char*)&ca; const unsigned char* pb = (const unsigned char*)&cb;
+  int ndiff = 0; out[0] = 0; const char* last = NULL;
+  for (size_t i = 0; i < sizeof(mjModel); i++) if (pa[i] != pb[i]) {
+    const char* nm = NULL;
+    for (int f = 0; f < nf; f++) if (i >= fld[f].off && i < fld[f].off + fld[f].sz) nm = fld[f].fn;
+    char tmp[64]; if (!nm) { snprintf(tmp, sizeof tmp, "offset%zu", i); nm = tmp; }
+    if (!last || strcmp(last, nm)) { ndiff++; if (strlen(out) + strlen(nm) + 2 < nout) { strcat(out, nm); strcat(out, ","); } }
+    last = nm == tmp ? NULL : nm;
+  }
+  return ndiff;
+}
+
+// mj_forward on both models from their default state: largest difference in qacc / qfrc_passive / qfrc_constraint
+static double forward_diff(const mjModel* a, const mjModel* b, char* msg, size_t nmsg) {
+  msg[0] = 0;
+  mjData* volatile da = NULL; mjData* volatile db = NULL; double worst = 0;
+  errarmed = 1;
+  if (setjmp(errjmp)) { errarmed = 0; snprintf(msg, nmsg, "error %s", errmsg); return -1; }
+  da = mj_makeData(a); db = mj_makeData(b);
+  if (!da || !db) { errarmed = 0; snprintf(msg, nmsg, "nodata"); return -1; }
+  mj_forward(a, da); mj_forward(b, db);
+  errarmed = 0;
+  if (da->nefc != db->nefc || da->ncon != db->ncon) { snprintf(msg, nmsg, "nefc %d/%d ncon %d/%d", da->nefc, db->nefc, da->ncon, db->ncon); worst = 1e30; }
+  for (int i = 0; i < a->nv; i++) {
+    double d1 = fabs(da->qacc[i] - db->qacc[i]), d2 = fabs(da->qfrc_passive[i] - db->qfrc_passive[i]),
+           d3 = fabs(da->qfrc_constraint[i] - db->qfrc_constraint[i]);
+    if (!(d1 <= worst)) worst = d1; if (!(d2 <= worst)) worst = d2; if (!(d3 <= worst)) worst = d3;
+  }
+  mj_deleteData(da); mj_deleteData(db);
+  return worst;
+}
+
 static void cmd_reload(void) {
   mjModel* m2 = NULL;
   nwarn = 0;
@@ -314,9 +375,9 @@ static void cmd_reload(void) {
 #define X(name) if (m2->name != M->name) same_sizes = 0;
   MJMODEL_SIZES
 #undef X
-  int same_structs = !memcmp(&m2->opt, &M->opt, sizeof(mjOption)) && !memcmp(&m2->vis, &M->vis, sizeof(mjVisual)) &&
-                     !memcmp(&m2->stat, &M->stat, sizeof(mjStatistic)) && m2->flg_gravcomp == M->flg_gravcomp &&
-                     m2->flg_surfacevel == M->flg_surfacevel;
+  char names[600];
+  int nscalar = scalar_diff(M, m2, names, sizeof names);
+  int same_structs = nscalar == 0;
   int ndiff = 0;
   if (same_sizes) {
     MJMODEL_POINTERS_PREAMBLE(M)
@@ -330,8 +391,9 @@ static void cmd_reload(void) {
   mj_saveModel(m2, NULL, b2, (int)sz2);
   int ident = (sz2 == basesz) && !memcmp(b2, base, basesz);
   free(b2);
+  char fmsg[300]; double fd = same_sizes ? forward_diff(M, m2, fmsg, sizeof fmsg) : 0; if (!same_sizes) fmsg[0] = 0;
   mj_deleteModel(m2);
-  printf("R 1 %d %d %d %d\n", same_sizes, same_structs, ndiff, ident);
+  printf("R 1 %d %d %d %d | scalars=%s | fwd=%.17g %s\n", same_sizes, same_structs, ndiff, ident, names, fd, fmsg);
 }
 
 static void crash_handler(int sig) { _exit(100 + sig); }
@@ -476,6 +538,18 @@ int main(void) {
     run_pending();
     if (!strncmp(line, "MODEL ", 6)) cmd_model(atoi(line + 6));
     else if (!strncmp(line, "GEN ", 4)) cmd_gen(line + 4);
+    else if (!strncmp(line, "ENUMS", 5)) {
+#define E(x) printf("E %s %d\n", #x, (int)(x));
+      E(mjTRN_JOINT) E(mjTRN_JOINTINPARENT) E(mjTRN_SLIDERCRANK) E(mjTRN_TENDON) E(mjTRN_SITE) E(mjTRN_BODY) E(mjTRN_SO3) E(mjTRN_UNDEFINED)
+      E(mjWRAP_NONE) E(mjWRAP_JOINT) E(mjWRAP_PULLEY) E(mjWRAP_SITE) E(mjWRAP_SPHERE) E(mjWRAP_CYLINDER)
+      E(mjEQ_CONNECT) E(mjEQ_WELD) E(mjEQ_JOINT) E(mjEQ_TENDON) E(mjEQ_FLEX) E(mjEQ_FLEXVERT) E(mjEQ_FLEXSTRAIN)
+      E(mjGEOM_HFIELD) E(mjGEOM_MESH) E(mjGEOM_SDF)
+      E(mjOBJ_UNKNOWN) E(mjOBJ_BODY) E(mjOBJ_XBODY) E(mjOBJ_JOINT) E(mjOBJ_DOF) E(mjOBJ_GEOM) E(mjOBJ_SITE) E(mjOBJ_CAMERA) E(mjOBJ_LIGHT)
+      E(mjOBJ_FLEX) E(mjOBJ_MESH) E(mjOBJ_SKIN) E(mjOBJ_HFIELD) E(mjOBJ_TEXTURE) E(mjOBJ_MATERIAL) E(mjOBJ_PAIR) E(mjOBJ_EXCLUDE)
+      E(mjOBJ_EQUALITY) E(mjOBJ_TENDON) E(mjOBJ_ACTUATOR) E(mjOBJ_SENSOR) E(mjOBJ_NUMERIC) E(mjOBJ_TEXT) E(mjOBJ_TUPLE) E(mjOBJ_KEY)
+      E(mjOBJ_PLUGIN) E(mjOBJ_DEFAULT) E(mjOBJ_FRAME) E(mjOBJ_MODEL)
+#undef E
+    }
     else if (!strncmp(line, "DUMP", 4)) { if (M) { dump_model(M, 1); printf("F "); hex(base, basesz); printf("\n"); } }
     else if (!strncmp(line, "OFFS", 4)) { if (M) cmd_offs(); }
     else if (!strncmp(line, "RELOAD", 6)) { if (M) cmd_reload(); }
